@@ -13,6 +13,7 @@ CONSTANTS
   PairSels = {"cur", "first"}
   MaxOps = 6
   Faults = FALSE
+  EffectiveOnly = FALSE
   MaxPend = 2
 INVARIANTS TypeOK C07_LeaderInISR StatusLive WitnessesAreGood PersistedISR
 PROPERTIES StepsOK
